@@ -450,6 +450,10 @@ def execute(root, inp, mat, archive_dir):
         provisioner.cleanup(preserve=inp["preserve"], install_dir=node_config.binary_path, data_paths=node_config.data_paths)
     except Exception as e:  # pylint: disable=broad-except
         out["err"] = "crash:cleanup:" + type(e).__name__
-    same = before == _snapshot(lay.root) if inp["preserve"] else False
+    same = False
+    if inp["preserve"]:
+        # "removes nothing": everything that was there is still there, unchanged
+        now = _snapshot(lay.root)
+        same = all(now.get(k) == v for k, v in before.items())
     out["after"] = {"exists": {w["p"]: os.path.exists(lay.real(w["p"])) for w in inp["node"]["watch"]}, "same": same}
     return out
